@@ -44,7 +44,10 @@ Record sigpok := SigPoK { kpsi : pokproof; khe : G1; khpe : G1; knu : G1; kkappa
 Definition pn (pp : pparams) : nat := size (pgs pp).
 
 (* sum_{i<n} c_i * v_i, the shape of every accumulation loop of ps.go *)
-Definition lin (V : lmodType F) (n : nat) (c : seq F) (v : seq V) : V := \sum_(0 <= i < n) c`_i *: v`_i.
+(* (the accumulations are written as folds, not as MathComp big operators, because those are sealed and do not
+   reduce under vm_compute; linE, lagrE, combineE, agg_pointsE below state that they are the same sums) *)
+Definition lin (V : lmodType F) (n : nat) (c : seq F) (v : seq V) : V :=
+  foldr (fun i acc => c`_i *: v`_i + acc) 0 (iota 0 n).
 
 (* LocalKeyGen / combineShares: public key of a secret key *)
 Definition pk_of (pp : pparams) (sk : skey) : pkey :=
@@ -210,8 +213,11 @@ Definition verify_pok (pp : pparams) (pk : pkey) (p : sigpok) : bool := pok_eqs 
 Definition pts (S : seq nat) : seq F := [seq i%:R | i <- S].
 
 (* Prover.ProveKnowledgeOfSignature: witnesses combined with lagrangeCoefficient(signer, signers...) *)
+(* lagrangeCoefficient(i, points...) = prod_{j in points, j != i} j / (j - i) *)
+Definition lagr (xs : seq F) (i : F) : F := foldr (fun j acc => if j != i then j / (j - i) * acc else acc) 1 xs.
+
 Definition combine_witnesses (S : seq nat) (ws : seq G1) : G1 :=
-  \sum_(p <- zip S ws) lagrange0 (pts S) (p.1)%:R *: p.2.
+  foldr (fun p acc => lagr (pts S) (p.1)%:R *: p.2 + acc) 0 (zip S ws).
 
 Definition prove_knowledge (pp : pparams) (tpk : pkey) (us : secret) (S : seq nat) (ws : seq G1)
            (eps delta mu : F) (gam : seq F) : sigpok :=
@@ -219,7 +225,7 @@ Definition prove_knowledge (pp : pparams) (tpk : pkey) (us : secret) (S : seq na
 
 (* localAggregatePublicKeys / localAggregateECPoints over the evaluation points T (party k is pks[k-1]) *)
 Definition agg_points (V : lmodType F) (T : seq nat) (pt : nat -> V) : V :=
-  \sum_(k <- T) lagrange0 (pts T) k%:R *: pt k.
+  foldr (fun k acc => lagr (pts T) k%:R *: pt k + acc) 0 T.
 Definition agg_pk (n : nat) (pks : seq pkey) (T : seq nat) : pkey :=
   let pk0 := PK 0 [::] in
   PK (agg_points T (fun k => pkX (nth pk0 pks k.-1)))
@@ -230,8 +236,8 @@ Definition agg_pk (n : nat) (pks : seq pkey) (T : seq nat) : pkey :=
 Definition evalp (cs : seq F) (x : F) : F := foldr (fun c acc => acc * x + c) 0 cs.
 Record dealing := Deal { dlx : seq F; dly : seq (seq F) }.
 Definition dkg_sk (n : nat) (deals : seq dealing) (i : nat) : skey :=
-  SK (\sum_(d <- deals) evalp (dlx d) i%:R)
-     (mkseq (fun j => \sum_(d <- deals) evalp (nth [::] (dly d) j) i%:R) n).
+  SK (foldr (fun d acc => evalp (dlx d) i%:R + acc) 0 deals)
+     (mkseq (fun j => foldr (fun d acc => evalp (nth [::] (dly d) j) i%:R + acc) 0 deals) n).
 Definition dkg_pks (pp : pparams) (n N : nat) (deals : seq dealing) : seq pkey :=
   [seq pk_of pp (dkg_sk n deals i) | i <- iota 1 N].
 
@@ -271,18 +277,47 @@ Proof. by rewrite -scaleN1r eZr scaleN1r. Qed.
 Lemma e0r a : e a 0 = 0.
 Proof. by rewrite -(scale0r (0 : G2)) eZr scale0r. Qed.
 
+(* ---- the folds are the usual sums ---- *)
+Lemma linE (V : lmodType F) n (c : seq F) (v : seq V) : lin n c v = \sum_(0 <= i < n) c`_i *: v`_i.
+Proof. by rewrite /lin unlock /reducebig /index_iota subn0. Qed.
+
+Lemma lagrE (xs : seq F) (i : F) : lagr xs i = lagrange0 xs i.
+Proof. by rewrite /lagr /lagrange0 unlock /reducebig. Qed.
+
+Lemma combineE (S : seq nat) (ws : seq G1) :
+  combine_witnesses S ws = \sum_(p <- zip S ws) lagrange0 (pts F S) (p.1)%:R *: p.2.
+Proof.
+rewrite /combine_witnesses unlock /reducebig; elim: (zip S ws) => [|p r IH] //=.
+by rewrite IH lagrE.
+Qed.
+
+Lemma agg_pointsE (V : lmodType F) (T : seq nat) (pt : nat -> V) :
+  agg_points T pt = \sum_(k <- T) lagrange0 (pts F T) k%:R *: pt k.
+Proof.
+rewrite /agg_points unlock /reducebig; move: (pts F T) => xs; elim: T => [|k r IH] //=.
+by rewrite IH lagrE.
+Qed.
+
+Lemma dkg_skE n (deals : seq (dealing F)) i :
+  dkg_sk n deals i = SK (\sum_(d <- deals) evalp (dlx d) i%:R)
+                        (mkseq (fun j => \sum_(d <- deals) evalp (nth [::] (dly d) j) i%:R) n).
+Proof.
+rewrite /dkg_sk; congr SK; first by rewrite unlock /reducebig.
+by apply: eq_map => j; rewrite unlock /reducebig.
+Qed.
+
 (* ---- linear combinations ---- *)
 Lemma lin_mkseq_affine (V : lmodType F) n (a b : seq F) (c : F) (v : seq V) :
   lin n (mkseq (fun i => a`_i + c * b`_i) n) v = lin n a v + c *: lin n b v.
 Proof.
-rewrite /lin scaler_sumr -big_split /=; apply: eq_big_nat => i /andP [_ ilt].
+rewrite !linE scaler_sumr -big_split /=; apply: eq_big_nat => i /andP [_ ilt].
 by rewrite nth_mkseq // scalerDl scalerA.
 Qed.
 
 Lemma lin_rcons (V : lmodType F) (m : seq F) (mp : F) (v : seq V) :
   lin (size m).+1 (rcons m mp) v = lin (size m) m v + mp *: v`_(size m).
 Proof.
-rewrite /lin big_nat_recr //= nth_rcons ltnn eqxx; congr (_ + _).
+rewrite !linE big_nat_recr //= nth_rcons ltnn eqxx; congr (_ + _).
 by apply: eq_big_nat => i /andP [_ ilt]; rewrite nth_rcons ilt.
 Qed.
 
@@ -290,7 +325,7 @@ Qed.
 Lemma lin_pk (V : lmodType F) n (c y : seq F) (g : V) : (n <= size y)%N ->
   lin n c [seq yi *: g | yi <- y] = (\sum_(0 <= i < n) c`_i * y`_i) *: g.
 Proof.
-move=> nle; rewrite /lin scaler_suml; apply: eq_big_nat => i /andP [_ ilt].
+move=> nle; rewrite linE scaler_suml; apply: eq_big_nat => i /andP [_ ilt].
 by rewrite (nth_map 0) ?scalerA // (leq_trans ilt nle).
 Qed.
 
@@ -353,7 +388,7 @@ Qed.
 (* ---- signing and unblinding ---- *)
 Lemma lin_mkseq_r (V : lmodType F) n (c : seq F) (f : nat -> V) :
   lin n c (mkseq f n) = \sum_(0 <= i < n) c`_i *: f i.
-Proof. by apply: eq_big_nat => i /andP [_ ilt]; rewrite nth_mkseq. Qed.
+Proof. by rewrite linE; apply: eq_big_nat => i /andP [_ ilt]; rewrite nth_mkseq. Qed.
 
 (* the exponent of an unblinded signature: x + sum_j y_j m_j *)
 Definition sig_exp (n : nat) (sk : skey F) (msg : seq F) : F := skx sk + \sum_(0 <= j < n) (sky sk)`_j * msg`_j.
@@ -440,12 +475,12 @@ Lemma agg_points_poly (V : lmodType F) T (Q : {poly F}) (v : V) :
 Proof.
 move=> okT sQ; have [_ _ tT] := and3P okT.
 rewrite -(reconstruct_at0 (uniq_pts okT)); last by rewrite size_map (leq_trans sQ).
-rewrite /agg_points /pts big_map scaler_suml; apply: eq_bigr => k _.
+rewrite agg_pointsE /pts big_map scaler_suml; apply: eq_bigr => k _.
 by rewrite scalerA mulrC.
 Qed.
 
 Lemma combine_agg S (f : nat -> G1) : combine_witnesses S [seq f k | k <- S] = agg_points S f.
-Proof. by rewrite /combine_witnesses -{1}(map_id S) zip_map big_map. Qed.
+Proof. by rewrite combineE agg_pointsE -{1}(map_id S) zip_map big_map. Qed.
 
 (* secret key of party i when the combined polynomials are Px, Py_j *)
 Definition sk_at (Px : {poly F}) (Py : nat -> {poly F}) (n i : nat) : skey F :=
@@ -479,7 +514,7 @@ Lemma combine_honest (pp : pparams) (Px : {poly F}) (Py : nat -> {poly F}) S msg
   = sig_exp (pn pp) (sk_at Px Py (pn pp) 0) msg *: h.
 Proof.
 move=> okS sx sy; rewrite combine_agg sig_exp_poly -(agg_points_poly _ okS (size_exp_poly _ _ sx sy)).
-by apply: eq_bigr => k _; rewrite sig_exp_poly.
+by rewrite !agg_pointsE; apply: eq_bigr => k _; rewrite sig_exp_poly.
 Qed.
 
 Theorem pok_verifies (pp : pparams) (Px : {poly F}) (Py : nat -> {poly F}) m rc z r alpha beta gamma S eps delta mu gam :
@@ -530,7 +565,7 @@ Qed.
 
 Lemma dkg_sk_poly n deals i : dkg_sk n deals i = sk_at (poly_x deals) (poly_y deals) n i.
 Proof.
-rewrite /dkg_sk /sk_at /poly_x horner_sum; congr SK; first by apply: eq_bigr => d _; rewrite evalpE.
+rewrite dkg_skE /sk_at /poly_x horner_sum; congr SK; first by apply: eq_bigr => d _; rewrite evalpE.
 rewrite /mkseq; apply: eq_map => j; rewrite /poly_y horner_sum.
 by apply: eq_bigr => d _; rewrite evalpE.
 Qed.
@@ -545,11 +580,76 @@ have nthpk k : k \in T -> nth (PK 0 [::]) (dkg_pks pp n N deals) k.-1 = pk_of pp
   move=> /inT /andP [k0 kN]; rewrite /dkg_pks (nth_map 0%N) ?size_iota ?prednK //.
   by rewrite nth_iota ?prednK // add1n prednK // dkg_sk_poly.
 rewrite /agg_pk /pk_of /=; congr PK.
-  rewrite -(agg_points_poly _ okT (size_poly_x okd)); apply: eq_big_seq => k kin.
+  rewrite -(agg_points_poly _ okT (size_poly_x okd)) !agg_pointsE; apply: eq_big_seq => k kin.
   by rewrite nthpk.
 rewrite /mkseq -map_comp; apply/eq_in_map => j; rewrite mem_iota add0n => /andP [_ jlt] /=.
-rewrite -(agg_points_poly _ okT (size_poly_y j okd)); apply: eq_big_seq => k kin.
+rewrite -(agg_points_poly _ okT (size_poly_y j okd)) !agg_pointsE; apply: eq_big_seq => k kin.
 by rewrite nthpk //= (nth_map 0) ?size_mkseq // nth_mkseq.
+Qed.
+
+(* ---- the same statements for the keys that come out of the DKG ---- *)
+Lemma nth_dkg_pks (pp : pparams) n deals k : (0 < k <= N)%N ->
+  nth (PK 0 [::]) (dkg_pks pp n N deals) k.-1 = pk_of pp (dkg_sk n deals k).
+Proof.
+move=> /andP [k0 kN]; rewrite /dkg_pks (nth_map 0%N) ?size_iota ?prednK //.
+by rewrite nth_iota ?prednK // add1n prednK.
+Qed.
+
+Theorem partial_unblinds_dkg (pp : pparams) deals m rc z r alpha beta gamma i :
+  size m = (pn pp).-1 -> (0 < pn pp)%N -> (0 < i <= N)%N ->
+  let n := pn pp in
+  let bl := blind pp m rc z r alpha beta gamma in
+  let sk := dkg_sk n deals i in
+  unblind pp (nth (PK 0 [::]) (dkg_pks pp n N deals) i.-1) (apply_sk pp bl.1 sk) (sh bl.2) (smsg bl.2) (sz bl.2)
+  = Some (sig_exp n sk (smsg bl.2) *: sh bl.2).
+Proof.
+move=> sm npos iN n bl sk; rewrite nth_dkg_pks //.
+by apply: partial_unblinds => //; rewrite /sk dkg_skE /= size_mkseq.
+Qed.
+
+Theorem pok_verifies_dkg (pp : pparams) deals m rc z r alpha beta gamma S T eps delta mu gam :
+  size m = (pn pp).-1 -> (0 < pn pp)%N -> deals_ok deals -> signers_ok S -> signers_ok T ->
+  let n := pn pp in
+  let bl := blind pp m rc z r alpha beta gamma in
+  let ws := [seq unblind_point (apply_sk pp bl.1 (dkg_sk n deals k)) (sz bl.2) | k <- S] in
+  let tpk := agg_pk n (dkg_pks pp n N deals) T in
+  sh bl.2 != 0 -> eps != 0 ->
+  verify_pok pp tpk (prove_knowledge pp tpk bl.2 S ws eps delta mu gam) = true.
+Proof.
+move=> sm npos okd okS okT n bl ws tpk hn0 en0.
+rewrite /tpk dkg_public_equal //.
+have -> : ws = [seq unblind_point (apply_sk pp bl.1 (sk_at (poly_x deals) (poly_y deals) n k)) (sz bl.2) | k <- S].
+  by apply: eq_map => k; rewrite dkg_sk_poly.
+apply: pok_verifies => //; first exact: size_poly_x.
+by move=> j; exact: size_poly_y.
+Qed.
+
+Theorem partial_unblinds_signed (pp : pparams) deals m rc z r alpha beta gamma i :
+  size m = (pn pp).-1 -> (0 < pn pp)%N -> (0 < i <= N)%N ->
+  let n := pn pp in
+  let bl := blind pp m rc z r alpha beta gamma in
+  let sk := dkg_sk n deals i in
+  (sign_blind true pp bl.1 sk).1 = Some (apply_sk pp bl.1 sk) /\
+  unblind pp (nth (PK 0 [::]) (dkg_pks pp n N deals) i.-1) (apply_sk pp bl.1 sk) (sh bl.2) (smsg bl.2) (sz bl.2)
+  = Some (sig_exp n sk (smsg bl.2) *: sh bl.2).
+Proof.
+move=> sm npos iN n bl sk; split; last exact: partial_unblinds_dkg.
+rewrite /sign_blind; have := @request_accepted pp m rc z r alpha beta gamma sm npos.
+rewrite -/bl; case E: (verify_request true pp bl.1) => [[] r'] //= _.
+have : (verify_request true pp bl.1).2 = bl.1.
+  by rewrite /verify_request verify_blinding_fixed /=; case: (bl.1).
+by rewrite E /= => ->.
+Qed.
+
+Theorem dkg_public_equal_all (pp : pparams) n deals T :
+  deals_ok deals -> signers_ok T ->
+  (forall i, dkg_sk n deals i = sk_at (poly_x deals) (poly_y deals) n i) /\
+  (forall i, (0 < i <= N)%N -> nth (PK 0 [::]) (dkg_pks pp n N deals) i.-1 = pk_of pp (dkg_sk n deals i)) /\
+  agg_pk n (dkg_pks pp n N deals) T = pk_of pp (sk_at (poly_x deals) (poly_y deals) n 0).
+Proof.
+move=> okd okT; split; first by move=> i; exact: dkg_sk_poly.
+split; first by move=> i; exact: nth_dkg_pks.
+exact: dkg_public_equal.
 Qed.
 
 End Facts.
